@@ -270,15 +270,30 @@ let () =
   let result = ref "" in
   let truth : desc list ref = ref [] in
   let last_ctx : (verid * (n * n)) option ref = ref None in
+  let last_op : (string * string * string list) option ref = ref None in
+  let inv_on = ref true in
   let replies = ref 0 in
   let report kind idx op args extra =
     incr mism;
     if not !seq_bad then begin seq_bad := true; incr badseq end;
     if !mism <= 60 then
       print_endline (String.concat "\t" ([kind; !seqid; idx; op] @ [String.concat " " args] @ extra)) in
+  (* the cache invariant of the convergence proof (cinv, executable form cinvb) on the implementation's cache contents *)
+  let inv_checked = ref 0 and inv_failed = ref 0 and wf_checked = ref 0 and wf_failed = ref 0 in
+  let clause_names = ["sorted"; "hist"; "addr"; "uniq"; "dom_start"; "dom_lat"; "dom_id"; "ok"; "len"; "tomb"] in
+  let check_inv () =
+    if !truth <> [] && !inv_on then begin
+      incr inv_checked;
+      if not (cinvb !truth !cache) then begin
+        incr inv_failed;
+        let bad = List.filter_map (fun (n, b) -> if b then None else Some n) (List.combine clause_names (cinv_parts !truth !cache)) in
+        let (idx, op, args) = (match !last_op with Some x -> x | None -> ("-", "-", [])) in
+        report "INVARIANT" idx op args ["cinv clauses violated: " ^ String.concat "," bad; "cache=" ^ show_dump !cache]
+      end
+    end in
   read_lines (fun line ->
     match split_tab line with
-    | "SEQ" :: cls :: seed :: rest -> txn_mode := (rest = ["txn"]); incr seqs; seqid := cls ^ "\t" ^ seed; seq_bad := false; cache := empty_cache; cur_op := None; last_ctx := None
+    | "SEQ" :: cls :: seed :: rest -> txn_mode := (rest = ["txn"]); incr seqs; seqid := cls ^ "\t" ^ seed; seq_bad := false; cache := empty_cache; cur_op := None; last_ctx := None; truth := []; last_op := None; inv_on := (cls <> "unit")
     | "T" :: ds :: _ -> truth := (try parse_descs ds with _ -> [])
     | "X" :: ev :: _ when String.length ev > 6 && String.sub ev 0 6 = "reply " ->
         (* the store's answer as the model's store_reply (Converge.v) predicts it from the ground truth *)
@@ -298,7 +313,7 @@ let () =
              end
          | None -> ());
         last_ctx := None
-    | "O" :: idx :: op :: args -> cur_op := Some (idx, op, args); qs := []; result := ""
+    | "O" :: idx :: op :: args -> cur_op := Some (idx, op, args); last_op := !cur_op; qs := []; result := ""
     | "Q" :: rest -> qs := rest :: !qs
     | "R" :: r :: _ -> result := r
     | "R" :: [] -> result := ""
@@ -361,8 +376,13 @@ let () =
               else if op <> "ctx" then last_ctx := None);
              if ok_res && ok_pd && mdump = impl_dump then cache := c1
              else cache := (try parse_dump ents regs lat ses tbs with _ -> c1);
-             cur_op := None)
+             cur_op := None);
+        check_inv ()
+    | "X" :: ev :: _ when String.length ev >= 10 && String.sub ev 0 10 = "conv begin" ->
+        (* a quiescent point: the ground truth must pass the executable form of truth_wf (hypothesis of C09_converges_checked) *)
+        incr wf_checked;
+        if not (truth_wfb !truth) then begin incr wf_failed; report "TRUTH-NOT-WF" "-" "conv begin" [] [] end
     | _ -> ());
-  Printf.printf "STATS\tcases=%d\tmismatches=%d\tseqs=%d\tbadseqs=%d\treplies=%d\n" !cases !mism !seqs !badseq !replies;
+  Printf.printf "STATS\tcases=%d\tmismatches=%d\tseqs=%d\tbadseqs=%d\treplies=%d\tinv_checked=%d\tinv_failed=%d\twf_checked=%d\twf_failed=%d\n" !cases !mism !seqs !badseq !replies !inv_checked !inv_failed !wf_checked !wf_failed;
   Hashtbl.iter (fun k v -> Printf.printf "COUNT\t%s\t%d\n" k v) counts;
   Hashtbl.iter (fun k v -> Printf.printf "SENDERPRIM\t%s\t%d\n" k v) sender_prims
